@@ -386,7 +386,7 @@ func plans() map[string]*propertyPlan {
 			minObserved: map[string]int64{"accepted": 2000, "rejected_as_required": 2000, "nodes_paired": 20000},
 			nontrivial:  "nontrivial", evaluations: "trees",
 			quick:    []spec{{family: "trees", cases: 300000, cpuS: 900, asKB: 8 << 20, wallS: 1200}},
-			thorough: []spec{{family: "trees", cases: 1500000, cpuS: 7200, asKB: 8 << 20, wallS: 9000}},
+			thorough: []spec{{family: "trees", cases: 6000000, cpuS: 7200, asKB: 8 << 20, wallS: 9000}},
 		},
 		"C10": {
 			level:       "exploration",
@@ -404,7 +404,7 @@ func plans() map[string]*propertyPlan {
 			minObserved: map[string]int64{"executions": 50000, "error_outcomes": 20},
 			nontrivial:  "nontrivial", evaluations: "executions",
 			quick:    []spec{{family: "conflict", cases: 330, cpuS: 900, asKB: 8 << 20, wallS: 1200}, {family: "generated", cases: 320, cpuS: 900, asKB: 8 << 20, wallS: 1200}, {family: "cli", cases: 48, cpuS: 900, wallS: 1200}},
-			thorough: []spec{{family: "conflict", cases: 3000, cpuS: 7200, asKB: 8 << 20, wallS: 9000}, {family: "generated", cases: 3000, cpuS: 7200, asKB: 8 << 20, wallS: 9000}, {family: "cli", cases: 400, cpuS: 7200, wallS: 9000}},
+			thorough: []spec{{family: "conflict", cases: 10000, cpuS: 7200, asKB: 8 << 20, wallS: 9000}, {family: "generated", cases: 10000, cpuS: 7200, asKB: 8 << 20, wallS: 9000}, {family: "cli", cases: 400, cpuS: 7200, wallS: 9000}},
 		},
 		"C19": {
 			level:       "exploration",
@@ -417,12 +417,12 @@ func plans() map[string]*propertyPlan {
 		},
 		"C18": {
 			level:       "exploration",
-			rule:        "generated module sets turned into operation histories: load of good texts in random order (one in eight carrying a semantic error), load of bad variants (syntax error, rejected statement at the top and after nested typedef scopes were built, incl. cyclic and dangling typedefs), process, process again, read walks (Find incl. absent rpc input/output, InstantiatingModule); after every process the canonical dump of the live set is compared with a fresh set loaded with the good texts so far and processed once; non-trivial = at least three process steps or a failed load; histories are distinct by construction",
-			assumptions: []string{"one module per text; a text with two modules of which the second is rejected is documented by goyang to leave the first behind and is not generated"},
+			rule:        "generated module sets turned into operation histories: load of good texts in random order (one in eight carrying a semantic error), load of bad variants (syntax error, rejected statement at the top and after nested typedef scopes were built, incl. cyclic and dangling typedefs), texts with several top-level statements of which a later (or the first) one is rejected, identity hierarchies over 2-4 modules with a late submodule, namespace twins, a newer revision arriving late, process, process again, read walks (Find incl. absent rpc input/output, InstantiatingModule), callers that clear the entry cache and convert on their own; after every process the canonical dump and the module, typedef and identity tables of the live set are compared with a fresh set loaded with the good texts so far and processed once; non-trivial = at least three process steps or a failed load; histories are distinct by construction",
+			assumptions: []string{"a text with several top-level statements of which a later one is rejected is documented by goyang to leave the earlier modules behind (recorded finding); the monitor then demands that the set behaves exactly as if the kept statements alone had been offered"},
 			minObserved: map[string]int64{"process_steps_compared": 5000},
 			nontrivial:  "nontrivial", evaluations: "histories",
 			quick:    []spec{{family: "history", cases: 12000, cpuS: 900, asKB: 8 << 20, wallS: 1200}},
-			thorough: []spec{{family: "history", cases: 150000, cpuS: 7200, asKB: 8 << 20, wallS: 9000}},
+			thorough: []spec{{family: "history", cases: 300000, cpuS: 7200, asKB: 8 << 20, wallS: 9000}},
 		},
 		"C08": {
 			level:       "exploration",
@@ -440,7 +440,7 @@ func plans() map[string]*propertyPlan {
 			minObserved: map[string]int64{"identity_checks": 10000},
 			nontrivial:  "nontrivial", evaluations: "graphs",
 			quick:    []spec{{family: "dag", cases: 20000, cpuS: 900, asKB: 8 << 20, wallS: 1200}},
-			thorough: []spec{{family: "dag", cases: 100000, cpuS: 7200, asKB: 8 << 20, wallS: 9000}},
+			thorough: []spec{{family: "dag", cases: 400000, cpuS: 7200, asKB: 8 << 20, wallS: 9000}},
 		},
 		"C13": {
 			level:       "exploration",
